@@ -1,4 +1,5 @@
 import LinfaSpec.Proofs.Predict
+import LinfaSpec.Proofs.PredictOrder
 import LinfaSpec.Proofs.PredictPlatt
 import Mathlib.Order.Defs.LinearOrder
 
@@ -139,6 +140,17 @@ theorem multiClass_argmax {L P : Type} [LinearOrder P] (best : L × P) (ds : Lis
 
 example : argmaxPairGo (7, 1) [(9, 3), (4, 3), (5, 2)] = (9, 3) := by decide
 
+/-- what the statement asks of the wrapper, without the tie-break: the pair returned is one of the
+members' (label, probability) pairs for that row and no member has a higher probability -/
+theorem multiClass_label_has_max_probability {L P : Type} [LinearOrder P] (best : L × P)
+    (ds : List (L × P)) :
+    argmaxPairGo best ds ∈ best :: ds ∧ ∀ d ∈ best :: ds, d.2 ≤ (argmaxPairGo best ds).2 := by
+  obtain ⟨pre, post, e, _, hall⟩ := multiClass_argmax best ds
+  exact ⟨by rw [e]; simp, hall⟩
+
+example : (argmaxPairGo (7, 1) [(9, 3), (4, 3), (5, 2)]) ∈ [(7, 1), (9, 3), (4, 3), (5, 2)] :=
+  (multiClass_label_has_max_probability (7, 1) [(9, 3), (4, 3), (5, 2)]).1
+
 
 /-! ## The structural families: `batch = map row`
 
@@ -199,6 +211,27 @@ example : kmeansBatch ([[0], [10]] : List (List Int)) [[1], [9], [5]] = some [0,
 example : tableBatch ([fun (x : Int) => x, fun x => 3 - x].map fun s => fun rs => rs.map s) [0, 1, 2, 3]
     = some [1, 1, 0, 0] := by decide
 example : threshBatch (fun rs => rs.map fun (x : Int) => 2 * x) 3 [1, 2] = [false, true] := by decide
+
+/-- k-means (oracle clause `nearest_centroid`): whatever `closest_centroid` returns is an index into
+the centroid table, the distance of that very centroid, and no centroid is nearer — for every
+table and every observation (first minimum; centroid 0 visited twice changes nothing) -/
+theorem kmeans_nearest_centroid {α : Type} [LinearOrder α] [Add α] [Sub α] [Mul α] [OfNat α 0]
+    (cents : List (List α)) (obs : List α) (i : Nat) (d : α)
+    (h : closestCentroid cents obs = some (i, d)) :
+    ∃ hi : i < cents.length, d = sqDist cents[i] obs ∧ ∀ c ∈ cents, d ≤ sqDist c obs :=
+  closestCentroid_nearest cents obs i d h
+
+example : closestCentroid ([[0], [10], [4]] : List (List Int)) [5] = some (2, 1) := by decide
+
+/-- score tables (naive Bayes, GMM, multinomial logistic): the class returned for a row is in range,
+its score is maximal among the row's scores and every earlier class scores strictly less -/
+theorem table_row_first_max {R α : Type} [LinearOrder α] (ss : List (R → α)) (r : R) (hne : ss ≠ []) :
+    ∃ v, (ss.map fun s => s r)[tableRow ss r]? = some v ∧ (∀ s ∈ ss, s r ≤ v) ∧
+      ∀ j y, j < tableRow ss r → (ss.map fun s => s r)[j]? = some y → y < v := by
+  obtain ⟨v, h1, h2, h3⟩ := argmaxIdx_first_max (ss.map fun s => s r) (by simpa using hne)
+  exact ⟨v, h1, fun s hs => h2 (s r) (List.mem_map_of_mem hs), h3⟩
+
+example : tableRow [fun (x : Int) => x, fun x => 3 - x, fun x => 3 - x] 1 = 1 := by decide
 
 /-- tree descent never fails when every split feature exists in the row -/
 def treeFeaturesBelow {α L : Type} : Tree α L → Nat → Prop
@@ -267,21 +300,162 @@ theorem predict_duplicates {R T : Type} (f : R → T) (rows rows' : List R) (i j
 
 example : ([1, 2] ++ [3] : List Nat).map (· + 1) = [1, 2].map (· + 1) ++ [3].map (· + 1) := predict_append _ _ _
 
-/-! ## The calling forms -/
+/-! ## The calling forms and the target buffer -/
 
-/-- the five calling forms return the same targets -/
-theorem forms_agree {R T : Type} (inplace : List R → T) (f g : Form) (records : List R) :
-    (predictForm inplace f records).targets = (predictForm inplace g records).targets := by
-  cases f <;> cases g <;> rfl
+/-- the five forms that allocate their own buffer (`&records`, `records`, `&dataset`, `dataset`,
+`predict_inplace` into `default_target`) return the same targets — whatever the model does with
+its buffer and whatever buffer the caller holds -/
+theorem forms_agree {R T : Type} (m : Inplace R T) (f g : Form) (records : List R) (buf buf' : T)
+    (hf : f ≠ .inplaceInto) (hg : g ≠ .inplaceInto) :
+    (predictForm m f records buf).targets = (predictForm m g records buf').targets := by
+  cases f <;> cases g <;> first | rfl | contradiction
+
+/-- a model *overwrites* its buffer: on admissible buffers (`ok` = the shape assert at the head of
+`predict_inplace`) the outcome does not depend on what the buffer held -/
+def Overwrites {R T : Type} (m : Inplace R T) (ok : List R → T → Prop) : Prop :=
+  (∀ rs, ok rs (m.defaultTarget rs)) ∧
+  ∀ rs y y', ok rs y → ok rs y' → m.predictInplace rs y = m.predictInplace rs y'
+
+/-- **in place into a supplied buffer**: for a model that overwrites its buffer, all six calling
+forms — including `predict_inplace` into any admissible pre-filled or reused buffer — return the
+same targets -/
+theorem forms_agree_supplied {R T : Type} (m : Inplace R T) (ok : List R → T → Prop)
+    (h : Overwrites m ok) (f g : Form) (records : List R) (buf buf' : T)
+    (hb : ok records buf) (hb' : ok records buf') :
+    (predictForm m f records buf).targets = (predictForm m g records buf').targets := by
+  have e1 := h.2 records buf (m.defaultTarget records) hb (h.1 records)
+  have e2 := h.2 records buf' (m.defaultTarget records) hb' (h.1 records)
+  cases f <;> cases g <;> simp only [predictForm] <;> first | rfl | exact e1 | exact e2.symm | exact e1.trans e2.symm
 
 /-- the dataset-returning forms hand back the input records unchanged -/
-theorem dataset_form_returns_records {R T : Type} (inplace : List R → T) (records : List R) :
-    (predictForm inplace .ownedArray records).records = some records ∧
-    (predictForm inplace .ownedDataset records).records = some records := ⟨rfl, rfl⟩
+theorem dataset_form_returns_records {R T : Type} (m : Inplace R T) (records : List R) (buf : T) :
+    (predictForm m .ownedArray records buf).records = some records ∧
+    (predictForm m .ownedDataset records buf).records = some records := ⟨rfl, rfl⟩
 
-example : (predictForm (fun (rs : List Nat) => rs.map (· * 2)) .ownedDataset [1, 2]).targets =
-    (predictForm (fun rs => rs.map (· * 2)) .inplace [1, 2]).targets := forms_agree _ _ _ _
+/-- `*y = e` after the shape assert: the outcome is the assigned value on every admissible buffer
+and a panic on every other one (OLS, elastic net, GLM, PLS, PCA, naive Bayes, GMM, multi-target) -/
+theorem assign_inplace_spec {T : Type} (ok : Bool) (v : Option T) :
+    assignInplace ok v = if ok then v else none := rfl
 
+/-- the zip loop after the length assert: for a per-row function that never panics on the rows of
+the batch the outcome is `rows.map g`, whatever the buffer held; a buffer of another length is the
+documented panic -/
+theorem zip_inplace_spec {R β : Type} (f : R → Option β) (g : R → β) (rows : List R) (y : List β)
+    (h : ∀ r ∈ rows, f r = some (g r)) :
+    zipInplace f rows y = if y.length = rows.length then some (rows.map g) else none := by
+  unfold zipInplace
+  by_cases hl : y.length = rows.length
+  · simp only [hl, ne_eq, not_true_eq_false, if_false, if_true]
+    exact zipWrite_eq_map f g rows y h hl
+  · simp [hl]
+
+/-- OLS / elastic net / GLM linear predictor into a supplied buffer -/
+theorem affine_inplace_overwrites {α : Type} [Add α] [Mul α] [OfNat α 0]
+    (rows : List (List α)) (w : List α) (b : α) (y : List α) (hy : y.length = rows.length) :
+    affineInplace rows w b y = some (rows.map (affineRow w b)) := by
+  simp [affineInplace, assignInplace, hy, affineBatch, matVec, affineRow, List.map_map, Function.comp_def]
+
+/-- k-means into a supplied membership buffer -/
+theorem kmeans_inplace_overwrites {α : Type} [Add α] [Sub α] [Mul α] [LT α] [DecidableLT α] [OfNat α 0]
+    (c0 : List α) (cents : List (List α)) (rows : List (List α)) (y : List Nat)
+    (hy : y.length = rows.length) :
+    kmeansInplace (c0 :: cents) rows y =
+      some (rows.map fun r => (closestGo r (c0 :: cents) 0 (0, sqDist c0 r)).1) := by
+  unfold kmeansInplace
+  rw [zip_inplace_spec _ (fun r => (closestGo r (c0 :: cents) 0 (0, sqDist c0 r)).1) rows y
+    (fun r _ => by simp [closestCentroid])]
+  simp [hy]
+
+/-- decision tree into a supplied label buffer -/
+theorem tree_inplace_overwrites {α L : Type} [LE α] [DecidableLE α] (t : Tree α L)
+    (rows : List (List α)) (p : Nat) (ht : treeFeaturesBelow t p) (hrows : ∀ r ∈ rows, r.length = p)
+    (y y' : List L) (hy : y.length = rows.length) (hy' : y'.length = rows.length) :
+    treeInplace t rows y = treeInplace t rows y' ∧ treeInplace t rows y = treeBatch t rows := by
+  obtain ⟨g, hg, hb⟩ := tree_batch_eq_map t rows p ht hrows
+  unfold treeInplace
+  rw [zip_inplace_spec _ g rows y hg, zip_inplace_spec _ g rows y' hg, hb]
+  simp [hy, hy']
+
+/-- `MultiTargetModel` into a supplied `(n, m)` buffer: the buffer content is irrelevant -/
+theorem multiTarget_inplace_spec {R L : Type} (gs : List (R → L)) (rows : List R) (y : List (List L))
+    (hy : y.length = rows.length) (hc : ∀ r ∈ y, r.length = gs.length) :
+    multiTargetInplace (gs.map fun g => fun rs => rs.map g) rows y =
+      some (rows.map fun r => gs.map fun g => g r) := by
+  unfold multiTargetInplace
+  have : (y.length == rows.length && y.all (fun r => r.length == (gs.map fun g => fun (rs : List R) => rs.map g).length)) = true := by
+    simp only [List.length_map, Bool.and_eq_true, beq_iff_eq, List.all_eq_true]
+    exact ⟨hy, hc⟩
+  rw [this]
+  exact multiTarget_spec gs rows
+
+/-- `MultiClassModel` into a supplied label buffer, at least one member: every cell is overwritten
+with the per-row running arg-max; the buffer content is irrelevant -/
+theorem multiClass_inplace_overwrites {R L P : Type} [LT P] [DecidableLT P]
+    (m : L × (R → P)) (ms : List (L × (R → P))) (rows : List R) (y : List L) (dflt : L)
+    (hy : y.length = rows.length) :
+    multiClassInplace ((m :: ms).map fun k => (k.1, fun rs => rs.map k.2)) rows y =
+      some (rows.map fun r => multiClassRow (m :: ms) r dflt) := by
+  unfold multiClassInplace
+  simp only [hy, ne_eq, not_true_eq_false, if_false]
+  cases hrows : rows with
+  | nil =>
+    have : y = [] := by simpa [hrows] using hy
+    subst this
+    simp [writeZip_nil_right]
+  | cons r0 rs =>
+    rw [← hrows]
+    have hne : rows ≠ [] := by simp [hrows]
+    simp only [List.map_cons, List.foldl_cons]
+    have h0 : multiClassStep ([] : List (L × P)) ((rows.map m.2).map fun p => (m.1, p)) =
+        rows.map fun r => (m.1, m.2 r) := by
+      simp [multiClassStep]
+    rw [h0, multiClass_fold_cons ms rows hne]
+    rw [writeZip_full _ _ (by simp [hy])]
+    simp [multiClassRow]
+
+/-- the `Predict` forms of `MultiClassModel` are the in-place form on the `L::default()` fill -/
+theorem multiClass_batch_is_inplace {R L P : Type} [LT P] [DecidableLT P]
+    (members : List (L × (List R → List P))) (rows : List R) (dflt : L) :
+    multiClassInplace members rows (List.replicate rows.length dflt) =
+      some (multiClassBatch members rows dflt) := by
+  simp [multiClassInplace, multiClassBatch, writeZip_replicate]
+  omega
+
+/-- … and with **no member at all** the buffer is handed back untouched (the `Predict` forms then
+return the `L::default()` fill): the one case where the in-place form shows the caller's data -/
+theorem multiClass_inplace_no_member {R L P : Type} [LT P] [DecidableLT P]
+    (rows : List R) (y : List L) (hy : y.length = rows.length) :
+    multiClassInplace (P := P) ([] : List (L × (List R → List P))) rows y = some y := by
+  simp [multiClassInplace, hy, writeZip]
+
+/-- isotonic regression over a linear order (no NaN), non-empty model with as many responses as
+knots: **every** cell is written — `position` always finds a knot between `x_min` and `x_max` — so
+the in-place form returns `vs.map g` whatever the buffer held (over IEEE floats a NaN query leaves
+its cell untouched: `isoCell … = some none`, see the notes) -/
+theorem iso_inplace_overwrites {α : Type} [LinearOrder α] [Add α] [Sub α] [Mul α] [Div α]
+    (reg resp : List α) (hne : reg ≠ []) (hlen : resp.length = reg.length) :
+    ∃ g : α → α, (∀ v, isoCell reg resp v = some (some (g v))) ∧
+      ∀ (vs y : List α), y.length = vs.length →
+        isoInplace reg resp (vs.map fun v => [v]) y = some (vs.map g) :=
+  iso_inplace_overwrites' reg resp hne hlen
+
+/-- … hence the `Predict` forms of isotonic regression are `batch = map row`, one output per row -/
+theorem iso_batch_eq_map {α : Type} [LinearOrder α] [Add α] [Sub α] [Mul α] [Div α] [OfNat α 0]
+    (reg resp : List α) (hne : reg ≠ []) (hlen : resp.length = reg.length) :
+    ∃ g : α → α, ∀ vs : List α, isoBatch reg resp (vs.map fun v => [v]) = some (vs.map g) := by
+  obtain ⟨g, _, h⟩ := iso_inplace_overwrites reg resp hne hlen
+  refine ⟨g, fun vs => ?_⟩
+  unfold isoBatch
+  exact h vs _ (by simp)
+
+example : isoInplace ([0, 2, 4] : List Int) [0, 2, 10] [[2], [3], [9], [-1]] [77, 77, 77, 77] =
+    some [2, 2, 10, 0] := by decide
+
+example : multiClassInplace ([(7, fun (x : Nat) => x % 3), (9, fun x => x % 2)].map
+    fun m => (m.1, fun rs => rs.map m.2)) [0, 1, 2, 3] [55, 55, 55, 55] = some [7, 7, 7, 9] := by decide
+example : affineInplace ([[1, 2], [3, 4]] : List (List Int)) [10, 1] 5 [99, -99] = some [17, 39] := by decide
+example : affineInplace ([[1, 2], [3, 4]] : List (List Int)) [10, 1] 5 [99] = none := by decide
+example : kmeansInplace ([[0], [10]] : List (List Int)) [[1], [9], [5]] [7, 7, 7] = some [0, 1, 0] := by decide
 
 /-! ## Platt scaling (over `ℝ`, `exp := Real.exp`, the `F → f32` cast read as the identity) -/
 
@@ -350,6 +524,17 @@ theorem platt_batch_eq_map {R : Type} (d : R → ℝ) (a b : ℝ) (rows : List R
   intro r _
   rw [Function.comp_apply]
   exact platt_value (d r) a b
+
+/-- the Platt wrapper into a supplied probability buffer: every cell is overwritten -/
+theorem platt_inplace_overwrites {R : Type} (d : R → ℝ) (a b : ℝ) (rows : List R) (y : List ℝ)
+    (hy : y.length = rows.length) :
+    plattInplace (fun (v : ℝ) => v) (fun rs => rs.map d) a b rows y =
+      some (rows.map fun r => 1 / (1 + Real.exp (a * d r + b))) := by
+  unfold plattInplace
+  simp only [hy, ne_eq, not_true_eq_false, if_false]
+  rw [zipWrite_eq_map _ (fun x => 1 / (1 + Real.exp (a * x + b))) (rows.map d) y
+    (fun x _ => platt_value x a b) (by simp [hy])]
+  simp [List.map_map, Function.comp_def]
 
 example : ∃ p, plattPredict (fun (v : ℝ) => v) 2 (-1) 0.5 = some p ∧ 0 ≤ p ∧ p ≤ 1 := platt_range _ _ _
 example : plattRaw ((-1 : ℝ) * 1 + 0) < plattRaw ((-1 : ℝ) * 2 + 0) := platt_strict (-1) 0 1 2 (by norm_num) (by norm_num)
